@@ -1309,10 +1309,10 @@ fn ref_etm<const N: usize>(o: &mut Out<N>, v: &ETM, h: &Hints, fr: Fr) {
     }
 }
 
-// @harness name=enc3_tgo props=C08,C07 kind=complete note="all values, both presence states; TGO(x, None) = 81 x"
-enc_harness!(enc3_tgo, TGO, 16, ref_tgo, |v| true, true, v.1.is_none());
-// @harness name=enc3_tgo2 props=C08,C07 kind=complete note="all values, all four presence combinations"
-enc_harness!(enc3_tgo2, TGO2, 16, ref_tgo2, |v| true, true, v.1.is_none() && v.2.is_some());
+// @harness name=enc3_tgo_pair props=C08,C07 kind=complete note="all values, both presence states; TGO(x, None) = 81 x"
+enc_harness!(enc3_tgo_pair, TGO, 16, ref_tgo, |v| true, true, v.1.is_none());
+// @harness name=enc3_tgo_triple props=C08,C07 kind=complete note="all values, all four presence combinations"
+enc_harness!(enc3_tgo_triple, TGO2, 16, ref_tgo2, |v| true, true, v.1.is_none() && v.2.is_some());
 // -- decode: TGO, masks {None, Some} x width classes
 // @harness name=dec3_tgo_1n props=C09 kind=complete
 dec_harness!(dec3_tgo_1n, TGO, ref_tgo, PREF, h2(1, AUTO), |h| TGO(u8c(h[0]), None));
